@@ -168,7 +168,14 @@ def run_case(case):
                             @staticmethod
                             def datavector(): return est_tab[tuple(cl)].copy()
                         return F
+                ans_before = {w: v.copy() for w, v in ans.items()}
+                if shift != 0.0 or case['np_seed'] % 2:
+                    # the mechanism loop calls the primitive round after round with the same dictionary of true answers
+                    mod.worst_approximated(ans, Est, workload, eps, penalty=case['penalty'], bounded=case['bounded'])
+                    del tap.events[:]
                 ret = mod.worst_approximated(ans, Est, workload, eps, penalty=case['penalty'], bounded=case['bounded'])
+                if any(not np.array_equal(ans[w], ans_before[w]) for w in workload):
+                    return out.fail('mutated:mwem_worst', "worst_approximated modified the caller's dictionary of true answers")
                 keys = workload
                 qs = errs
                 sens_eff = 2.0 if case['bounded'] else 1.0
